@@ -415,8 +415,8 @@ func raceCheck() []kit.V {
 		return nil
 	}
 	// A Do that never returns would hang the free-running pass: it normally
-	// takes seconds, so ten minutes without finishing is reported.
-	ctx, cancel := context.WithTimeout(context.Background(), 10*time.Minute)
+	// takes seconds, so three minutes without finishing is reported.
+	ctx, cancel := context.WithTimeout(context.Background(), 3*time.Minute)
 	defer cancel()
 	cmd := exec.CommandContext(ctx, bin, "-racepass")
 	cmd.Env = append(os.Environ(), "GORACE=halt_on_error=1 exitcode=66")
@@ -426,13 +426,17 @@ func raceCheck() []kit.V {
 	}
 	s := string(out)
 	if ctx.Err() != nil {
-		return []kit.V{{Key: "free-running-hang par", What: "the free-running pass did not finish within 10 minutes (a Do call never returned):\n" + firstLines(s, 5), Case: kase{}, NoConfirm: true}}
+		return []kit.V{{Key: "free-running-hang par", What: "the free-running pass did not finish within 3 minutes (a Do call never returned):\n" + firstLines(s, 5), Case: kase{}, NoConfirm: true}}
 	}
 	if strings.Contains(s, "WARNING: DATA RACE") {
 		return []kit.V{{Key: "data-race par", What: "race detector report in the free-running pass:\n" + firstLines(s, 30), Case: kase{}, NoConfirm: true}}
 	}
 	if strings.Contains(s, "RACEPASS-ORACLE") {
 		return []kit.V{{Key: "free-running-oracle par", What: firstLines(s, 5), Case: kase{}, NoConfirm: true}}
+	}
+	if strings.Contains(s, "panic: ") || strings.Contains(s, "fatal error: ") {
+		// the code under test crashed in the free-running pass (the explorer reports the same crash with a schedule)
+		return []kit.V{{Key: "free-running-crash par", What: "the free-running pass crashed:\n" + firstLines(s, 12), Case: kase{}, NoConfirm: true}}
 	}
 	kit.Harness("race pass failed: %v\n%s", err, firstLines(s, 20))
 	return nil
